@@ -290,6 +290,54 @@ func (p *Program) libCallName(c *ssa.CallCommon) string {
 	return ""
 }
 
+// callbackTargets resolves the program code a library function with callbacks (sort.Sort, sort.Slice, sync.Once.Do,
+// strings.Map, ...) can call back into: the Len/Less/Swap methods of the concrete sort.Interface value built at the call
+// site, and function literals or named functions passed directly.  extra are heap keys the library function itself
+// writes (the elements of the slice being sorted).  ok is false when some callback cannot be resolved statically; the
+// call is then treated as a call to unknown code.
+func (p *Program) callbackTargets(c *ssa.CallCommon) (fns []*ssa.Function, extra map[string]bool, ok bool) {
+	extra = map[string]bool{}
+	name := p.libCallName(c)
+	for _, a := range c.Args {
+		switch t := a.Type().Underlying().(type) {
+		case *types.Signature:
+			switch v := a.(type) {
+			case *ssa.Function:
+				fns = append(fns, v)
+			case *ssa.MakeClosure:
+				fns = append(fns, v.Fn.(*ssa.Function))
+			default:
+				return nil, nil, false
+			}
+		case *types.Interface:
+			mi, isMI := a.(*ssa.MakeInterface)
+			if !isMI {
+				return nil, nil, false
+			}
+			switch name {
+			case "sort.Sort", "sort.Stable":
+				for _, m := range []string{"Len", "Less", "Swap"} {
+					sel := p.SSA.MethodSets.MethodSet(mi.X.Type()).Lookup(nil, m)
+					if sel == nil {
+						return nil, nil, false
+					}
+					fn := p.SSA.MethodValue(sel)
+					if fn == nil {
+						return nil, nil, false
+					}
+					fns = append(fns, fn)
+				}
+			case "sort.Slice", "sort.SliceStable":
+				p.typeKeys(mi.X.Type(), extra)
+			default:
+				return nil, nil, false
+			}
+			_ = t
+		}
+	}
+	return fns, extra, true
+}
+
 func (p *Program) directSummary(fn *ssa.Function) *Summary {
 	s := &Summary{Writes: map[string]bool{}, direct: map[string]bool{}}
 	if fn.Blocks == nil {
@@ -313,7 +361,18 @@ func (p *Program) directSummary(fn *ssa.Function) *Summary {
 					}
 				}
 				if name := p.libCallName(c); name != "" && stdlibCallbacks[name] {
-					s.dynAll = true
+					if cb, extra, ok := p.callbackTargets(c); ok {
+						for _, f := range cb {
+							if p.InModule(f) {
+								s.calls = append(s.calls, f)
+							}
+						}
+						for k := range extra {
+							s.direct[k] = true
+						}
+					} else {
+						s.dynAll = true
+					}
 				}
 			}
 		}
@@ -379,6 +438,26 @@ func (p *Program) BuildSummaries() {
 			}
 		}
 	}
+}
+
+// callbackSummary: the write summary of a library call with callbacks, nil when a callback is unresolved.
+func (p *Program) callbackSummary(c *ssa.CallCommon) *Summary {
+	cb, extra, ok := p.callbackTargets(c)
+	if !ok {
+		return nil
+	}
+	out := &Summary{Writes: extra}
+	for _, f := range cb {
+		if fs := p.Summ[f]; fs != nil {
+			if fs.All {
+				out.All = true
+			}
+			for k := range fs.Writes {
+				out.Writes[k] = true
+			}
+		}
+	}
+	return out
 }
 
 // rootAlloc returns the Alloc at the root of an address chain (FieldAddr/IndexAddr on pointers), or nil.
